@@ -162,7 +162,7 @@ def parse_coq_evals(stdout):
     vals = []
     # blocks start with '     = ' and end with a line starting '     : '
     for m in re.finditer(r"^\s*= (.*?)^\s*: [^\n]*(?:\n\s{7,}[^\n]*)*", stdout, re.S | re.M):
-        body = m.group(1)
+        body = re.sub(r"%[A-Za-z_]+", "", m.group(1))     # scope delimiters (%Z, %float, %nat) carry no information here
         toks = _tokens(body)
         v, _ = _parse_term(toks, 0)
         vals.append(v)
